@@ -4163,6 +4163,62 @@ def spec_hidden_element_nothing(ctx, make_exe):
     return {"function": f.name, "paths": len(outs)}
 
 # ----------------------------------------------------------------------------
+# SPEC: every <style> element of a document is a style sheet of its own: dom_to_stylesheet hands each extracted text
+# to add_author_css separately, in document order, and carries on when one of them does not parse (malformed CSS in
+# one element must not change what the others say: C17; a display:none rule in a later element still hides: C18).
+# ----------------------------------------------------------------------------
+
+def spec_doc_stylesheets_separate(ctx, make_exe):
+    import summaries
+    orig = summaries.summarize
+    f = the(ctx.find(r"^dom_to_stylesheet$"), "css::dom_extract::dom_to_stylesheet")
+    total = 0
+    for n in (0, 1, 2, 3):
+        exe = make_exe(loop_bound=8)
+        st = State()
+        sheets = [VOpaque("String", "sheet%d" % k) for k in range(n)]
+        data = VOpaque("StyleData", "style_data")
+
+        def who(exe_, st_, v):
+            while isinstance(v, VRef):
+                v = exe_.deref(st_, v)
+            return getattr(v, "name", None)
+
+        def summ(exe_, st_, f_, bb_, callee, args, dest_ty):
+            c = callee.strip()
+            if re.search(r"^tree_map_reduce::<", c):
+                return [(st_, VAgg("Result::Ok", "Ok", [VAgg("Option::Some", "Some", [VVec(list(sheets))])]))]
+            if re.search(r"<StyleData as Default>::default$", c):
+                return [(st_, data)]
+            if re.search(r"StyleData::add_author_css$", c):
+                st_.calls.append(("sheet_added", [who(exe_, st_, args[1])], f_.name, bb_))
+                ok = st_.clone()
+                err = st_.clone()
+                return [(ok, VAgg("Result::Ok", "Ok", [VUnit()])), (err, VAgg("Result::Err", "Err", [VOpaque("Error", "parse_error")]))]
+            if re.search(r"<String as Deref>::deref$", c):
+                return [(st_, VRef("val", VOpaque("str", str(who(exe_, st_, args[0])))))]
+            return orig(exe_, st_, f_, bb_, callee, args, dest_ty)
+        summaries.summarize = summ
+        try:
+            try:
+                outs = exe.run(f.name, {1: VOpaque("Rc<Node>", "handle"), 2: VRef("val", VOpaque("T", "err_out"))}, st)
+            except PathEnd as e:
+                raise Inconclusive("dom_to_stylesheet: %s" % e)
+        finally:
+            summaries.summarize = orig
+        if not outs:
+            raise Inconclusive("dom_to_stylesheet: no path returned")
+        total += len(outs)
+        if len(outs) != 2 ** n:
+            post(exe, outs[0][0], z3.BoolVal(False), f.name, "%d style elements: every combination of sheets that parse and sheets that do not is handled (%d ways, want %d)" % (n, len(outs), 2 ** n))
+        for (s2, ret) in outs:
+            added = [cl[1][0] for cl in s2.calls if cl[0] == "sheet_added"]
+            post(exe, s2, z3.BoolVal(added == ["sheet%d" % k for k in range(n)]), f.name,
+                 "%d style elements: each is added as a sheet of its own, in document order, whether or not the others parse (%s)" % (n, added))
+            post(exe, s2, z3.BoolVal(isinstance(ret, VAgg) and ret.variant == "Ok"), f.name, "a style element that does not parse is not an error of the document")
+    return {"function": f.name, "paths": total}
+
+# ----------------------------------------------------------------------------
 # SPEC: the Sup arm of do_render_node renders all its children, or - the digits shortcut - replaces a *single* text
 # child by superscript characters; it never finishes without its children when there are several.
 # ----------------------------------------------------------------------------
@@ -5459,6 +5515,12 @@ ALL = [
          bounds="every sequence of 4 (thorough: 5) tokens over {identifier, ( ) [ ] { } ;}, then end of input",
          assumptions=["parse_token delivers the scripted tokens; derived PartialEq on Token compares discriminants for bracket tokens"],
          replay=lambda fd, vals, info: {"harness": "m_at_rule_skip", "values": [[0]]}),
+    Spec("doc_stylesheets_separate", ["C18", "C17"], spec_doc_stylesheets_separate,
+         functions=["css::dom_extract::dom_to_stylesheet"],
+         bounds="0-3 style elements with opaque texts; each parse succeeds or fails arbitrarily",
+         assumptions=["tree_map_reduce delivers the texts of the style elements in document order (extract_style_nodes / combine_vecs are not executed; "
+                      "tree_traversal decides the order of the driver)", "StyleData::add_author_css is observed"],
+         replay=lambda fd, vals, info: {"harness": "m_style_elements", "values": [[0]]}),
     Spec("sup_children_kept", ["C03"], spec_sup_children_kept,
          functions=["do_render_node (Sup arm) and its helper sup_digits"],
          bounds="1, 2 and 3 opaque children (any node kinds, any text)",
